@@ -119,7 +119,7 @@ def chkSqrt (name : String) (f : Option Rat) (rad : Option Rat) : String :=
   match f, rad with
   | none, none => "ok"
   | some f, some r => verdict name (sqrtWithin eps f r) s!"sqrt({r})"
-  | none, some r => s!"far:{name}~sqrt({r})"
+  | none, some r => if r < 0 then "ok" else s!"far:{name}~sqrt({r})"   -- np.sqrt(negative) = NaN
   | some _, none => s!"far:{name}~nan"
 
 def splitComma (s : String) : List String := if s == "-" then [] else s.splitOn ","
